@@ -21,7 +21,8 @@ EXPLANATION = (
     "and returns ZeroPivot, on every path before 1/D[k] is formed - with or without regularisation; (R9) is_triu, on which "
     "the NotUpperTriangular rejection rests, examines every stored entry of every column; (R10) update / scale / offset of the "
     "engine's copy go through the entry map in every arm (back-end rule re-run); (R11) the first pivot is read from the value "
-    "array only when column 0 of the permuted matrix is non-empty (finding F8, fixed).")
+    "array only when column 0 of the permuted matrix is non-empty (finding F8, fixed)."
+    ' (R12) every pass of the row loop reaches the pivot block (no `continue` past regularise / zero test / sign count / inverse), and the numeric pass leaves it only through the Dinv store or the ZeroPivot return.')
 ASSUMPTIONS = ['rustc MIR construction and trait resolution are correct', 'amd::order returns a valid permutation']
 
 
@@ -494,6 +495,48 @@ def first_pivot_guard(rep, F, tag):
     R.guard(body)
 
 
+def every_pivot_finished(rep, F, tag):
+    """Row k of the factorisation ends with the pivot block: regularise, test for zero, count the sign, store 1/D[k].  No pass of the row
+    loop may skip it - a row of L that happens to be empty (no entries above the diagonal) still has a pivot, and one that is skipped leaves
+    a stale D[k] / Dinv[k] from the previous factorisation, an unreported zero pivot and a wrong inertia count."""
+    R = rep.rule('C12.R12', 'every pass of the row loop of _factor_inner reaches the pivot block (regularise / zero test / sign count / inverse)')
+
+    def body():
+        f = F.one(name='_factor_inner')
+        stores = []
+        for bi, si, st in f.assignments():
+            if st['p']['p']:
+                t = canon(f.sym_place(st['p']))
+                if (t.startswith('arg9[') or t.startswith('index_mut(arg9')) and t != 'arg9[0_usize]':
+                    stores.append(bi)
+        if len(stores) != 1:
+            raise AnchorError('in-loop Dinv store matched %d sites' % len(stores))
+        bi = stores[0]
+        loops = f.loops()
+        outer = [h for h, body_ in loops.items() if bi in body_]
+        if not outer:
+            raise AnchorError('the Dinv[k] store is not inside a loop')
+        h = max(outer, key=lambda x: len(loops[x]))
+        doms = [b for b in f.dominators()[bi] if f.blocks[b]['t']['k'] == 'switch' and 'arg15' in canon(f.sym_operand(f.blocks[b]['t']['d'])) and b in loops[h]]
+        if not doms:
+            raise AnchorError('no logical_factor test dominating the pivot block inside the row loop')
+        g = max(doms, key=lambda b: len(f.dominators()[b]))
+        # (a) every way round the row loop goes through the logical_factor test that opens the pivot block
+        skip = [s for s in f.succ[h] if s in loops[h] and h in f.reachable_from(s, avoid={g})]
+        R.check(not skip, 'pass-reaches-pivot-block' + tag,
+                'a pass of the row loop of _factor_inner can return to the loop head without reaching the pivot block (a `continue` or a skipped row): '
+                'that row keeps a stale D[k] and Dinv[k], its zero pivot is not reported and its sign is not counted', f.loc())
+        # (b) in the numeric pass the block ends with the inverse (or with the ZeroPivot return)
+        tsw = f.blocks[g]['t']
+        k = canon(f.sym_operand(tsw['d']))
+        zero_t = [tb for v_, tb in tsw['ts'] if int(v_) == 0]
+        numeric = tsw['o'] if k.startswith('not(') else (zero_t[0] if zero_t else tsw['o'])
+        R.check(h not in f.reachable_from(numeric, avoid={bi}), 'numeric-pass-stores-inverse' + tag,
+                'the numeric pass can finish a row without storing Dinv[k]', f.loc())
+
+    R.guard(body)
+
+
 def run(ctx, rep, tier):
     for cfg in (CONFIGS_THOROUGH if tier == 'thorough' else CONFIGS):
         F = ctx.facts(cfg)
@@ -509,6 +552,7 @@ def run(ctx, rep, tier):
         reset_complete(rep, F, E, tag)
         triu_test(rep, F, tag)
         first_pivot_guard(rep, F, tag)
+        every_pivot_finished(rep, F, tag)
         # "refactoring after value updates equals factoring the updated matrix": update / scale / offset go through the
         # entry map AtoPAPt in every arm (C08.R5 back-end rule re-run)
         from . import c08, c04
